@@ -70,6 +70,7 @@ type Unit struct {
 	closedChans map[string]bool
 	initArrays map[string]Term
 	allocTypes map[int]types.Type
+	allocPC    map[int]Term
 	objinvDone map[string]bool
 	globalAxioms []string
 }
